@@ -166,3 +166,127 @@ Theorem C17_spelling_any_case :
      name_ok (Some month_names) 1 12 nm = true /\ lookup_name month_names nm = Some n /\ 1 <= n <= 12).
 Proof. exact spelling_any_case. Qed.
 Print Assumptions C17_spelling_any_case.
+
+(* ---- the tie by translation: builder/helper.py's argument parser and const.py's name tables ---- *)
+From EAS Require Import GenRtParse GenParseEq.
+From EASGen Require Import GenParse.
+(* ---- to be appended to props/C17.v; add to its imports:
+        From EAS Require Import GenRtParse GenParseEq.
+        From EASGen Require Import GenParse.                                                      ---- *)
+
+(* ---- the second tie: the parser and the name tables as the source files say them TODAY --------------------- *)
+(* tools/gen_parse.py translates _wrapped_range, _parse_single_value, _parse_str_options, _parse_values, get_weekdays,
+   get_days, get_months (builder/helper.py) and get_day_nr, get_month_nr, __create_names with its closures and the module
+   level (const.py) statement by statement into gen/GenParse.v; the file was recognised *)
+Theorem C17_generated_recognised : gen_parse_status_v = GenParseOk.
+Proof. exact gen_parse_recognised. Qed.
+Print Assumptions C17_generated_recognised.
+
+(* the name tables COMPUTED by the translated __create_names from the literals of const.py are the model's tables (same
+   entries, same order), and the translated get_day_nr / get_month_nr are lower + strip + dict.get or ValueError *)
+Theorem C17_generated_tables :
+  gen_names = Ok (day_names, month_names) /\ gen_day_names = day_names /\ gen_month_names = month_names /\
+  (forall tbl s, g_get_day_nr tbl s = match lookup_name tbl s with Some n => Ok n | None => Raise EValueError end) /\
+  (forall tbl s, g_get_month_nr tbl s = match lookup_name tbl s with Some n => Ok n | None => Raise EValueError end).
+Proof.
+  exact (conj gen_names_are_model (conj gen_day_names_is_model (conj gen_month_names_is_model
+        (conj gen_get_day_nr_is_lookup gen_get_month_nr_is_lookup)))).
+Qed.
+Print Assumptions C17_generated_tables.
+
+(* the generated parser computes what Parse.v computes, for every input of the model's argument type: value set or
+   rejection.  [lookup_agrees g lk]: the lookup function handed to the generated code answers what the model's table
+   answers.  Fuel: one unit per call of a recursive function; with too little fuel the answer is OutOfFuel, never a value *)
+Theorem C17_generated_parser_is_model :
+  (forall a b mx, g_wrapped_range a b mx = Ok (wrapped_range a b mx)) /\
+  (forall g mn mx k, g_parse_single_value (VInt k) g mn mx = parse_single_int mn mx k) /\
+  (forall g lk mn mx s, lookup_agrees g lk -> g_parse_single_value (VStr s) g mn mx = parse_single_str lk mn mx s) /\
+  (forall g lk mn mx, lookup_agrees g lk ->
+     forall n v, r_parse_str_options (pknot n) v g mn mx = parse_opts n lk mn mx v) /\
+  (forall g lk mn mx, lookup_agrees g lk ->
+     forall n v, g_parse_str_options (pknot (S n)) v g mn mx = parse_str_options lk mn mx v) /\
+  (forall g lk mn mx, lookup_agrees g lk ->
+     forall n l, (ldepth l + 2 <= n)%nat -> g_parse_values (pknot n) l g mn mx = parse_values lk mn mx l) /\
+  (forall g lk mn mx, lookup_agrees g lk ->
+     forall n l, r_parse_values (pknot n) l g mn mx = OutOfFuel \/
+                 r_parse_values (pknot n) l g mn mx = parse_values lk mn mx l).
+Proof. exact gen_parser_is_model. Qed.
+Print Assumptions C17_generated_parser_is_model.
+
+(* the three entry points with their lookups and ranges (1-7 with the day names, 1-31 without names, 1-12 with the
+   month names) are the model's get_weekdays / get_days / get_months *)
+Theorem C17_generated_entry_points :
+  (forall d, lookup_agrees (gen_lookup d) (dom_lookup d)) /\
+  (forall n args, (ldepth args + 3 <= n)%nat -> g_get_weekdays (pknot n) args = get_weekdays args) /\
+  (forall n args, (ldepth args + 3 <= n)%nat -> g_get_days (pknot n) args = get_days args) /\
+  (forall n args, (ldepth args + 3 <= n)%nat -> g_get_months (pknot n) args = get_months args) /\
+  (forall d n args, gen_get d n args = OutOfFuel \/ gen_get d n args = get_values d args).
+Proof. exact gen_entry_points. Qed.
+Print Assumptions C17_generated_entry_points.
+
+(* ... hence the theorems above hold for the generated code: ranges incl. wrap-around, *)
+Theorem C17_generated_wrapped_range_spec :
+  forall a b mx, exists r, g_wrapped_range a b mx = Ok r /\
+    forall x, In x r <-> (a <= b /\ a <= x <= b) \/ (b < a /\ (a <= x <= mx \/ 1 <= x <= b)).
+Proof. exact gen_wrapped_range_spec. Qed.
+Print Assumptions C17_generated_wrapped_range_spec.
+
+(* every string of the grammar is read as the set it denotes, through every nesting, *)
+Theorem C17_generated_parse_sound :
+  (forall d n t, tree_ok (dom_lookup d) (dom_min d) (dom_max d) t = true ->
+     gen_str_options d n (print t) = Ok (denote (dom_lookup d) (dom_max d) t)) /\
+  (forall d n vs, vtree_ok (dom_lookup d) (dom_min d) (dom_max d) (TList vs) = true ->
+     (ldepth (map vprint vs) + 4 <= n)%nat ->
+     gen_get d n (map vprint vs) = Ok (vdenote (dom_lookup d) (dom_max d) (TList vs)) /\
+     gen_get d n [VList (map vprint vs)] = Ok (vdenote (dom_lookup d) (dom_max d) (TList vs))).
+Proof. exact (conj gen_parse_sound gen_get_sound). Qed.
+Print Assumptions C17_generated_parse_sound.
+
+(* anything else is rejected, *)
+Theorem C17_generated_reject_atoms : forall d,
+  let lk := dom_lookup d in let mn := dom_min d in let mx := dom_max d in
+  let single := fun s => g_parse_single_value (VStr s) (gen_lookup d) mn mx in
+  (forall s, isdigit (strip s) = true -> ~ (mn <= digits_val (strip s) <= mx) -> single s = Raise EValueError) /\
+  (forall s, isdigit (strip s) = false -> (forall tbl, lk = Some tbl -> lookup_name tbl (strip s) = None) ->
+     single s = Raise EValueError) /\
+  (forall tbl s k, lk = Some tbl -> isdigit (strip s) = false -> lookup_name tbl (strip s) = Some k -> ~ (mn <= k <= mx) ->
+     single s = Raise EValueError) /\
+  (forall s, isdigit (strip s) = true -> forallb is_ascii_digit (strip s) = false -> single s = Raise EValueError) /\
+  (forall s, all_space s = true -> (forall tbl, lk = Some tbl -> assoc [] tbl = None) -> single s = Raise EValueError).
+Proof. exact gen_reject_atoms. Qed.
+Print Assumptions C17_generated_reject_atoms.
+
+Theorem C17_generated_reject_propagates : forall d,
+  let lk := dom_lookup d in let mn := dom_min d in let mx := dom_max d in
+  (forall n v, zmemb COMMA v = false ->
+     (if zmemb DASH v
+      then exists a b, split_first DASH v = Some (a, b) /\
+             (parse_single_str lk mn mx a = Raise EValueError \/ parse_single_str lk mn mx b = Raise EValueError)
+      else parse_single_str lk mn mx v = Raise EValueError) ->
+     gen_str_options d n v = Raise EValueError) /\
+  (forall n v part e, zmemb COMMA v = true -> In part (split_on COMMA v) -> parse_item lk mn mx part = Raise e ->
+     exists e', gen_str_options d n v = Raise e') /\
+  (forall n vs v e, (ldepth vs + 3 <= n)%nat -> In v vs -> parse_val lk mn mx v = Raise e ->
+     exists e', gen_get d n vs = Raise e') /\
+  (forall n, (3 <= n)%nat -> gen_get d n [] = Raise EValueError) /\
+  (forall n, (4 <= n)%nat -> gen_get d n [VList []] = Raise EValueError) /\
+  (forall n k, (3 <= n)%nat -> ~ (mn <= k <= mx) -> gen_get d n [VInt k] = Raise EValueError).
+Proof. exact gen_reject_propagates. Qed.
+Print Assumptions C17_generated_reject_propagates.
+
+(* and the names: English and German, full or abbreviated, in every casing, and nothing else *)
+Theorem C17_generated_name_tables :
+  ((forall nm n, In (nm, n) english_german_days -> assoc nm gen_day_names = Some n) /\
+   (forall nm n, In (nm, n) gen_day_names -> assoc nm english_german_days = Some n /\ 1 <= n <= 7)) /\
+  ((forall nm n, In (nm, n) english_german_months -> assoc nm gen_month_names = Some n) /\
+   (forall nm n, In (nm, n) gen_month_names -> assoc nm english_german_months = Some n /\ 1 <= n <= 12)).
+Proof. exact gen_name_tables. Qed.
+Print Assumptions C17_generated_name_tables.
+
+Theorem C17_generated_spelling_any_case :
+  (forall nm key n, lower nm = key -> assoc key gen_day_names = Some n ->
+     name_ok (dom_lookup DWeekdays) 1 7 nm = true /\ g_get_day_nr gen_day_names nm = Ok n /\ 1 <= n <= 7) /\
+  (forall nm key n, lower nm = key -> assoc key gen_month_names = Some n ->
+     name_ok (dom_lookup DMonths) 1 12 nm = true /\ g_get_month_nr gen_month_names nm = Ok n /\ 1 <= n <= 12).
+Proof. exact gen_spelling_any_case. Qed.
+Print Assumptions C17_generated_spelling_any_case.
